@@ -145,7 +145,7 @@ def run_history(kind, subtype, els, steps, rng, quant=True, probes=True):
                            f'modified by the call', k)
         if out.py_fail is None:
             f = python_side(kind, subtype, els, arr, orig, quant, lambda: _src_q(kind, els, subtype),
-                            out)
+                            out, wrap=quant and rng.random() < 0.15)
             if f is not None:
                 out.py_fail = (f[0], f'{kind} after step {k} {st}: {f[1]}', k)
     out.case = (U.elems_term(kind, els), rep0, obs)
@@ -165,7 +165,7 @@ def _src_q(kind, els, subtype):
     return _SRC_CACHE[key]
 
 
-def python_side(kind, subtype, els, arr, orig, quant, src_q, out=None):
+def python_side(kind, subtype, els, arr, orig, quant, src_q, out=None, wrap=False):
     """None when everything agrees, else (signature, what)"""
     want = [None if o is None else els[o] for o in orig]
     aei = any(U.is_aei(kind, e) for e in want)
@@ -186,9 +186,13 @@ def python_side(kind, subtype, els, arr, orig, quant, src_q, out=None):
     if it is not None and (len(it) != len(want)
                            or not all(U.same_elem(a, b) for a, b in zip(it, want))):
         return ('iteration-differs', f'list(arr) gives {it!r}, expected {want!r}')
+    fresh = G.make_array(kind, want, subtype)
+    f = U.cx_compare(kind, arr, fresh, nkeys=None if quant else 3,
+                     wrappers=wrap)
+    if f is not None:
+        return f
     if not quant:
         return None
-    fresh = G.make_array(kind, want, subtype)
     try:
         qd = U.quantities(kind, arr)
     except Exception as e:  # noqa: BLE001
@@ -307,8 +311,33 @@ def enumerated(tier):
             # on a slice of a concatenation (non-zero offset in the buffers), then once more
             out.append((kind, 'float64', els,
                         [{'op': 'slice', 'args': [1, None, None], 'form': 'plain'},
-                         {'op': 'slice', 'args': [s, e, k], 'form': 'plain'},
-                         {'op': 'slice', 'args': [e, s, k], 'form': 'plain'}], False))
+                         {'op': 'slice', 'args': [s, e, k], 'form': 'plain', 'sindex': 2},
+                         {'op': 'slice', 'args': [e, s, k], 'form': 'plain', 'sindex': 3}], False))
+    # a built spatial index must not travel to an array with other rows: same-length
+    # reorderings / repeats / fills, shorter "whole-looking" slices; copies may keep it
+    for kind in G.KINDS:
+        els = fixed_source(kind, 6)
+        n = 6
+        fam = [('slice', [None, None, -1], f) for f in ('plain', 'series_iloc', 'df_iloc')]
+        fam += [('slice', [a, None, None], f) for a in (-3, -2, -6, -7, 0, 1)
+                for f in ('plain', 'series_iloc', 'series_getitem')]
+        fam += [('slice', [None, b, None], 'plain') for b in (-1, 6, 5)]
+        fam += [('take', [[5, 3, 0, 1, 2, 4], False, 'none'], f)
+                for f in ('list', 'numpy', 'series_take', 'series_sort_index', 'df_sort_values')]
+        fam += [('take', [[0, 0, 1, 2, 3, 4], False, 'none'], 'numpy'),
+                ('take', [[1, -1, 0, 2, -1, 5], True, 'none'], 'numpy'),
+                ('take', [[1, -1, 0, 2, -1, 5], True, 'none'], 'series_reindex'),
+                ('ints', [5, 4, 3, 2, 1, 0], 'numpy'), ('ints', [1, 0, 2, 3, 4, 5], 'series_iloc'),
+                ('mask', [True] * 6, 'numpy'), ('mask', [True] * 6, 'series_bool'),
+                ('concat', [[3, None], [None, 3]], 'direct'), ('concat', [[1, None], [None, 1]], 'pd_concat'),
+                ('copy', None, 'copy'), ('copy', None, 'full_slice'), ('copy', None, 'pickle'),
+                ('copy', None, 'series'), ('copy', None, 'df')]
+        for ps in (2, 512):
+            for op, args, form in fam:
+                out.append((kind, 'float64', els,
+                            [{'op': op, 'args': args, 'form': form, 'sindex': ps},
+                             {'op': 'slice', 'args': [-2, None, None], 'form': 'plain', 'sindex': ps}],
+                            True))
     for kind in G.KINDS:
         els = fixed_source(kind, 6)
         pre = {'op': 'slice', 'args': [2, 5, None], 'form': 'plain'}     # length 3, offset 2
@@ -456,7 +485,12 @@ def run(rep):
         'GeoSeries/GeoDataFrame iloc / loc / reindex / boolean selection / pd.concat / pickle / '
         'parquet are expected to have the element semantics of the model step they are mapped to '
         '(slice, take without fill, take with fill and -1, mask, concat, copy)']
-    rep.rule = ('(a) enumerated small scopes: every slice start/stop/step over a 10x10x7 grid applied '
+    rep.rule = ('(0) before ~35% of the steps (and every step of the slice grid and of the index '
+                'family) build_sindex(page_size in {2,3,4,16,512}) is called on the array / Series / '
+                'frame the step starts from; after every step cx[...] (7 keys incl. omitted and '
+                'inverted ends; also through GeoSeries / GeoDataFrame on ~15% of the steps) and '
+                'sindex.intersects (4 boxes) of the derived array are compared with those of a fresh '
+                'array of the selected elements; (a) enumerated small scopes: every slice start/stop/step over a 10x10x7 grid applied '
                 'to a slice of a 4-element array and once more; on a length-3 window (offset 2) of a '
                 '6-element array of each of the 7 kinds every take of <= 2 indices in [-4, 3] with and '
                 'without allow_fill, every boolean mask in 3 surface forms, wrong lengths, NA masks, '
